@@ -1,19 +1,23 @@
 #!/bin/sh
 # usage: tools/try_mutant.sh <patch.diff> <Cxx> [<Cyy> ...]
-# Applies the patch to /repo (which must be clean), runs the quick checks, and always reverts.
-# Prints one line per check: "<Cxx> exit=<code> <first VIOLATION line>"
+# Applies the patch to a scratch copy of /repo's working tree (outside /repo and /verif), runs the quick checks against
+# that copy (FORSYS_REPO), and removes the copy. /repo itself is never touched, so several runs can go in parallel.
+# Prints one line per check: "<Cxx> exit=<code> nviol=<n> <first VIOLATION line>"
 set -u
-PATCH="$1"; shift
-cd /repo || exit 2
-if [ -n "$(git status --porcelain --untracked-files=no)" ]; then echo "repo not clean"; exit 2; fi
-if ! git apply --check "$PATCH" 2>/dev/null; then echo "patch does not apply: $PATCH"; exit 2; fi
-git apply "$PATCH"
-trap 'cd /repo && git checkout -- . ' EXIT INT TERM
+PATCH="$(readlink -f "$1")"; shift
+SCR=$(mktemp -d /tmp/mutcopy.XXXXXX)
+trap 'rm -rf "$SCR"' EXIT INT TERM
+cp -r /repo/. "$SCR"/
+cd "$SCR" || exit 2
+if ! git apply "$PATCH" 2>/dev/null; then
+  # patches made against an older HEAD: try with reduced context
+  if ! git apply -C1 "$PATCH" 2>/dev/null; then echo "patch does not apply: $PATCH"; exit 2; fi
+fi
 cd /verif
 for c in "$@"; do
-  out=$(VERIF_SEED=${VERIF_SEED:-1} /venv/bin/python -m harness.run "$c" --tier quick 2>&1)
+  out=$(FORSYS_REPO="$SCR" VERIF_SEED=${VERIF_SEED:-1} /venv/bin/python -m harness.run "$c" --tier quick 2>&1)
   code=$?
-  first=$(printf '%s\n' "$out" | grep -m1 '^VIOLATION' | sed 's/replay=[^ ]*//' | cut -c1-220)
+  first=$(printf '%s\n' "$out" | grep -m1 '^VIOLATION' | sed 's/replay=[^ ]*//' | cut -c1-230)
   herr=$(printf '%s\n' "$out" | grep -m1 'HARNESS-ERROR' | cut -c1-120)
   echo "$c exit=$code nviol=$(printf '%s\n' "$out" | grep -c '^VIOLATION') $first $herr"
 done
